@@ -1,4 +1,4 @@
-CONSTANT P = 17
+CONSTANT P = 13
 CONSTANT N = 2
 CONSTANT MUT = "none"
 CONSTANT DIDS = {1, 3}
